@@ -69,8 +69,16 @@ class CtrlHarness(Harness):
         return m
 
 
+class CtrlHarness4(CtrlHarness):
+    """same harness with the real 4:1 clock ratio (usb ticks on every 4th usb_io edge)"""
+    clocks = {"usb_io": (1, 0), "usb": (4, 0)}
+
+
 def queries(tier):
     f = lambda: CtrlHarness()
     K = 12 if tier == "quick" else 40
     return [Query("bmc_ctrl", f, K, timeout=900, desc="control clauses, all inputs free per cycle"),
-            Query("cosim_ctrl", f, 0, kind="cosim", cosim_cycles=200)]
+            Query("cosim_ctrl", f, 0, kind="cosim", cosim_cycles=200),
+            Query("cosim_ctrl_4to1", lambda: CtrlHarness4(), 0, kind="cosim", cosim_cycles=400),
+            Query("bmc_ctrl_4to1", lambda: CtrlHarness4(), 24, timeout=900, covers=[],
+                  desc="control clauses with the real 4:1 usb_io:usb clock ratio")]
